@@ -27,6 +27,8 @@ def generate(rng: random.Random, tier: str):
                 yield S.apply_case(fam, doc, st, True, "primitive")[0]
             for st in S.node_level_steps(rng, doc, gen.family(fam), 4 if quick else 8):
                 yield S.apply_case(fam, doc, st, True, "node-level")[0]
+            for st in S.join_deletion_steps(rng, doc, 4 if quick else 12) + S.sibling_gap_steps(rng, g, doc, 3 if quick else 8):
+                yield S.apply_case(fam, doc, st, True, "joins")[0]
 
 
 def rebuild(desc):
